@@ -981,6 +981,11 @@ class Cov(Reduction):
             "cols": self.frame.columns,
         }
 
+    def _simplify_up(self, parent, dependents):
+        # The result is a matrix over *all* input columns: selecting a column
+        # of it is not the covariance of that column alone
+        return
+
 
 class Corr(Cov):
     corr = True
